@@ -72,19 +72,36 @@ def r_conll_heads(repo, rep, R='R7.1'):
         return None
     init = {rec.name: ('func', rec.name, id(rec))}
     got = {}
+    # the list of heads (whatever it is called) and its convention: positions counted from 0 with -1 for "no head yet / root",
+    # or IDs counted from 1 with 0 for the root -- read off the leaf path, which appends the root marker
+    RES, base = N('results'), 0
+    for st, o in SymExec(rec, on_call=on_call, init_env=init).run():
+        if (A(N(p), 'is_leaf'), True) in [(c, pol) for c, pol, _ in st.conds]:
+            for e in st.events:
+                if e[0] == 'call' and e[1][1][0] == 'attr' and e[1][1][2] == 'append' and e[1][1][1][0] == 'name' and e[1][2] in ((C(-1),), (C(0),)):
+                    RES, base = e[1][1][1], (0 if e[1][2] == (C(-1),) else 1)
+    ROOT = C(base - 1)
     for st, o in SymExec(rec, on_call=on_call, init_env=init).run():
         conds = [(c, pol) for c, pol, _ in st.conds]
-        sets = [(e[2], e[3]) for e in st.events if e[0] == 'setitem' and e[1] == N('results')]
-        apps = [e[1][2] for e in st.events if e[0] == 'call' and e[1][1] == A(N('results'), 'append')]
+        sets = [(e[2], e[3]) for e in st.events if e[0] == 'setitem' and e[1] == RES]
+        if base == 1:
+            # IDs are positions + 1: the entry of word k is heads[k - 1]
+            sets = [((a_[2] if a_[0] == 'binop' and a_[1] == '-' and a_[3] == C(1) else ('sym', 'not-an-id', show(a_))), b_) for a_, b_ in sets]
+        apps = [e[1][2] for e in st.events if e[0] == 'call' and e[1][1] == A(RES, 'append')]
         if (A(N(p), 'is_leaf'), True) in conds:
             # the index of the new entry: len(results) read before the append, or len(results) - 1 read after it
-            LEN = ('call', N('len'), (N('results'),), ())
+            LEN = ('call', N('len'), (RES,), ())
             i_len = [i for i, e in enumerate(st.events) if e[0] == 'call' and e[1] == LEN]
-            i_app = [i for i, e in enumerate(st.events) if e[0] == 'call' and e[1][1] == A(N('results'), 'append')]
-            idx_ok = len(i_len) == 1 and len(i_app) == 1 and (
-                (st.ret == LEN and i_len[0] < i_app[0]) or
-                (st.ret == ('binop', '-', LEN, C(1)) and i_len[0] > i_app[0]))
-            ok = apps == [(C(-1),)] and idx_ok and not sets
+            i_app = [i for i, e in enumerate(st.events) if e[0] == 'call' and e[1][1] == A(RES, 'append')]
+            if base == 0:
+                idx_ok = len(i_len) == 1 and len(i_app) == 1 and (
+                    (st.ret == LEN and i_len[0] < i_app[0]) or
+                    (st.ret == ('binop', '-', LEN, C(1)) and i_len[0] > i_app[0]))
+            else:
+                idx_ok = len(i_len) == 1 and len(i_app) == 1 and (
+                    (st.ret == LEN and i_len[0] > i_app[0]) or
+                    (st.ret in (('binop', '+', LEN, C(1)), ('binop', '+', C(1), LEN)) and i_len[0] < i_app[0]))
+            ok = apps == [(ROOT,)] and idx_ok and not sets
             got['leaf'] = ok
             rep.check(ok, R, w, 'resolve:leaf', 'a leaf takes the next index, is provisionally marked as root (-1) and returns its index',
                       'leaf path: appends %s, returns %s' % (apps, show(st.ret) if st.ret else None))
@@ -146,16 +163,16 @@ def r_conll_heads(repo, rep, R='R7.1'):
                 continue
             cnt = [x for x in f[1][1:] if x != C(1)][0]
             # number of entries still -1: len([.. if d == -1]) / sum(1 for .. if d == -1) / results.count(-1)
-            if cnt == ('call', A(res, 'count'), (C(-1),), ()):
+            if cnt == ('call', A(res, 'count'), (ROOT,), ()):
                 ok = True
             if cnt[0] == 'call' and cnt[1] in (N('len'), N('sum')) and len(cnt[2]) == 1 and cnt[2][0][0] in ('listcomp', 'genexp') and len(cnt[2][0][2]) == 1:
                 it, filt = cnt[2][0][2][0]
                 if it == res and len(filt) == 1:
                     ff = logic.formula(filt[0])
-                    ok = ok or (ff[0] == 'atom' and ff[1][0] == 'eq' and C(-1) in ff[1][1:] and any(x[0] == 'elem' and x[1] == it for x in ff[1][1:])
+                    ok = ok or (ff[0] == 'atom' and ff[1][0] == 'eq' and ROOT in ff[1][1:] and any(x[0] == 'elem' and x[1] == it for x in ff[1][1:])
                                 and (cnt[1] == N('len') or cnt[2][0][1] == C(1)))
     rep.check(ok, R, '%s:%s _resolve_dependencies' % (CONLL, outer.lineno), 'resolve:one-root', 'exactly one word keeps the root marker (asserted)',
-              'there is no assertion that exactly one dependency stays -1')
+              'there is no assertion that exactly one dependency stays %s' % show(ROOT))
     crec = mod.get('conll_of.rec')
     # the row of a word: ID column = position + 1 (1-based), HEAD column = dependencies[position] + 1 (0 = root), and the
     # position advances by exactly one per leaf -- whether it is kept in a counter variable or drawn from itertools.count()
@@ -211,8 +228,13 @@ def r_conll_heads(repo, rep, R='R7.1'):
                     if it_ok and src(e_).replace(' ', '') in ('%s+1' % g_.target.id, '1+%s' % g_.target.id):
                         return 'plus1'
                 return None
-            if head_t[0] == 'sub' and head_t[1][0] == 'name' and deps_binding(head_t[1][1]) == 'plus1':
+            if head_t[0] == 'sub' and head_t[1][0] == 'name' and deps_binding(head_t[1][1]) == 'plus1' and base == 0:
                 head_t = ('binop', '+', head_t, C(1))       # the +1 was applied to the whole list beforehand
+            elif head_t[0] == 'sub' and head_t[1][0] == 'name' and deps_binding(head_t[1][1]) == 'raw' and base == 1:
+                head_t = ('binop', '+', head_t, C(1))       # the resolver hands out IDs (from 1, 0 = root) itself: the entry is the column
+            elif base == 1:
+                detail = 'the resolver already counts from 1 (0 = root) but the head column is %s' % show(head_t)[:60]
+                continue
             elif not (head_t[0] == 'binop' and head_t[1] == '+' and head_t[3] == C(1) and head_t[2][0] == 'sub' and head_t[2][1][0] == 'name'
                       and (head_t[2][1] == N('dependencies') or deps_binding(head_t[2][1][1]) == 'raw')):
                 detail = 'head column is %s' % show(head_t)[:60]
